@@ -30,3 +30,52 @@ func init() {
 		register(&v)
 	}
 }
+
+// Map-order variants: Go leaves the iteration order of maps unspecified; these variants make the
+// order of every instrumented map range an environment choice (fault bound 1 in the quick tier:
+// one walk deviates from the canonical order; 2 in the thorough tier).
+var mapOrderVariants = []string{
+	"c13/seq-L4", "c14/two-hosts-L4", "c15/seq-L4", "c16/leasttime-shrink", "c16/concurrent", "c18/swap-3targets", "c18/failover", "c20/transport-histories-L3",
+}
+
+func init() {
+	for _, n := range mapOrderVariants {
+		base := findScenario(n)
+		if base == nil {
+			panic("map-order variant of unknown scenario " + n)
+		}
+		v := *base
+		v.Name = n + "-map-order"
+		v.MapOrder = true
+		v.Quick = []Bound{{0, 1}}
+		v.Thorough = []Bound{{0, 2}, {1, 1}}
+		v.BudgetQ, v.BudgetT = 15, 120
+		register(&v)
+	}
+}
+
+// High-sequence-number variants: the connection has already made 126 / 16382 / 2097150 /
+// 2^32-2 calls, so that the sequence numbers of the scenario's calls cross a varint length
+// boundary (and a 32-bit boundary).
+var highSeqVariants = []string{
+	"c01/2callers-allmodes", "c02/raw-2calls", "c04/raw-allmodes", "c05/3calls", "c06/failing-call-abandoned", "c09/1stream-servecodec", "c10/servecodec", "c19/1abandoned",
+}
+
+func init() {
+	for _, n := range highSeqVariants {
+		base := findScenario(n)
+		if base == nil {
+			panic("high-seq variant of unknown scenario " + n)
+		}
+		v := *base
+		v.Name = n + "-high-seq"
+		v.SeqBases = []uint64{126, 16382, 2097150, 1<<32 - 2}
+		v.Quick = []Bound{{0, 0}, {1, 0}}
+		if n == "c02/raw-2calls" || n == "c04/raw-allmodes" || n == "c09/1stream-servecodec" {
+			v.Quick = []Bound{{0, 0}} // the costly ones: deviation bound 1 in the thorough tier only
+		}
+		v.Thorough = []Bound{{1, 0}, {2, 0}}
+		v.BudgetQ, v.BudgetT = 15, 120
+		register(&v)
+	}
+}
